@@ -3,7 +3,7 @@ import networkx as nx
 from networkx import dfs_edges, dfs_postorder_nodes
 import numpy as np
 from numpy import isscalar, reshape
-from numbers import Number
+from numbers import Number, Integral
 from collections import deque
 from copy import deepcopy
 import textwrap
@@ -1530,7 +1530,7 @@ class AllConnGraph(nx.DiGraph):
                     model._inputs._abs_set_val(node[1], tval)
                 else:
                     idx = indices()
-                    if np.ndim(idx) == 0 and np.size(tval) == 1:
+                    if isinstance(idx, Integral) and np.size(tval) == 1:
                         # a single entry is addressed: assign a scalar, not a 1-element array
                         tval = np.asarray(tval).reshape(-1)[0]
                     model._inputs._abs_set_val(node[1], tval, idx=idx)
@@ -3738,7 +3738,8 @@ class AllConnGraph(nx.DiGraph):
                 for idx in indices_list:
                     positions = idx.indexed_val(positions)
 
-                if np.shape(val) != () and \
+                # (a single value is broadcast, as it is when no indices are involved)
+                if np.size(val) != 1 and \
                    np.squeeze(val).shape != np.squeeze(positions).shape:
                     msg = (f"Value shape {np.squeeze(val).shape} does not match shape "
                            f"{np.squeeze(positions).shape} of the destination")
